@@ -415,10 +415,11 @@ namespace SP
     a state whose ledger holds nothing of the task on `r`: if it reports success, the seconds recorded for the task
     on `r`, weighted by the efficiency, add up to the requested effort — exactly, whatever the efforts, efficiencies,
     resolution, calendars, limits and other bookings are. -/
-theorem scheduleTask_exact (e : Env) (wf : WF e) (σ : St) (t r : Nat)
+theorem scheduleTask_exact_sel (e : Env) (wf : WF e) (σ : St) (t r : Nat)
     (hinv : Inv e σ) (hlf : (e.taskD t).leaf = true)
     (ha : (e.taskD t).hasAlloc = true) (hm : (e.taskD t).milestone = false) (hpos : 0 < (e.taskD t).effort)
-    (hsel : ∀ σ' c, selectBest e σ' (e.taskD t).alloc (e.taskD t).alt (e.taskD t).effort c = [r])
+    (hsel0 : selectBest e (σ.setT t (preStartT e σ t (initCursor e σ t).1)) (e.taskD t).alloc (e.taskD t).alt (e.taskD t).effort
+      (preStartCursor e σ t (initCursor e σ t).1) = [r])
     (hnd : (σ.tst t).done = false)
     (hclean : ∀ i, usageOf (σ.led.get r i).usage t = none)
     (hok : (scheduleTask e σ t).2 = true) :
@@ -439,7 +440,7 @@ theorem scheduleTask_exact (e : Env) (wf : WF e) (σ : St) (t r : Nat)
        by show (0 : Rat) = sumOver _ r t [] / 3600 * (e.resD r).eff; simp only [sumOver]; grind, List.nodup_nil⟩
     have hs0 : selectedOf e (σ.setT t (preStartT e σ t (initCursor e σ t).1)) t
         { cur := preStartCursor e σ t (initCursor e σ t).1, offset := (initCursor e σ t).2 } = [r] := by
-      unfold selectedOf; exact hsel _ _
+      unfold selectedOf; exact hsel0
     by_cases hfin : (walkLoop e t (σ.tst t).forward (e.size.toNat + 3) (σ.setT t (preStartT e σ t (initCursor e σ t).1))
         { cur := preStartCursor e σ t (initCursor e σ t).1, offset := (initCursor e σ t).2 }).2.2 = true
     · simp only [hfin, Bool.not_true, Bool.false_eq_true, if_false] at hok ⊢
@@ -450,5 +451,17 @@ theorem scheduleTask_exact (e : Env) (wf : WF e) (σ : St) (t r : Nat)
         { cur := preStartCursor e σ t (initCursor e σ t).1, offset := (initCursor e σ t).2 }).2.2 = false := by simpa using hfin
       simp only [hfin', Bool.not_false, if_true] at hok
       exact Bool.noConfusion hok
+
+
+/-- the same when the allocation selects `[r]` in every state -/
+theorem scheduleTask_exact (e : Env) (wf : WF e) (σ : St) (t r : Nat)
+    (hinv : Inv e σ) (hlf : (e.taskD t).leaf = true)
+    (ha : (e.taskD t).hasAlloc = true) (hm : (e.taskD t).milestone = false) (hpos : 0 < (e.taskD t).effort)
+    (hsel : ∀ σ' c, selectBest e σ' (e.taskD t).alloc (e.taskD t).alt (e.taskD t).effort c = [r])
+    (hnd : (σ.tst t).done = false)
+    (hclean : ∀ i, usageOf (σ.led.get r i).usage t = none)
+    (hok : (scheduleTask e σ t).2 = true) :
+    ∃ vis, Exact e (scheduleTask e σ t).1 t r vis :=
+  scheduleTask_exact_sel e wf σ t r hinv hlf ha hm hpos (hsel _ _) hnd hclean hok
 
 end SP
